@@ -43,6 +43,11 @@ class BaseEngine:
     def same_signature(self, a, b):
         return a == b
 
+    def wants_isolation(self, plan):
+        """True for plans that should always run in a pristine forked process (e.g. several threads racing for
+        the first use of something in the process)."""
+        return False
+
     def abort_cleanup(self):
         pass
 
